@@ -40,7 +40,8 @@ LEVEL_NOTE = ('Trusted: Coq kernel, the hand-written model Auth.v, the correspon
               'fraction (dyadic values); the intersection of the layer\'s and the global geometry of a tile request is an '
               'abstract geometry whose predicates are inputs.  Two defects found here were repaired in /repo (blend path '
               'painting white through a clipped layer; tile services ignoring the global limited_to when the layer entry '
-              'has its own); their witnesses stay in the corpus.')
+              'has its own); their witnesses stay in the corpus.  Valid-input restriction of the generators: coordinates stay in '
+              'the area where the projections are valid; the two geometries of one tile request are in the same SRS or both rectilinear.')
 DESIGN_REF = 'DESIGN.md section 5, C10'
 RULE = ('case = merge: (request options, layer modes/options/clip, masks, pixels); app: (layer tree, request, callback '
         'result, geometric predicates); non-trivial = partial/none/unauthenticated callback results or a clip mask with '
@@ -882,6 +883,20 @@ def gen_requests(rng, cfg, nreq):
                     g['shape'] = sh
                     if g['form'] == 'bbox' and g['shape']['kind'] not in ('rect', 'all', 'far'):
                         g['form'] = 'wkt'
+        if req['type'] == 'tile' and req['cb'] is not None:
+            # The tile services intersect the layer's and the global geometry in the SRS of the first one, so one of
+            # them may be reprojected there and back (vertex by vertex).  That is exact for axis-parallel edges only:
+            # geometries in different SRS are both rectilinear here (valid-input restriction, see LEVEL_NOTE).
+            own_ = req['cb']['layers'].get(req['layer'], {}).get('limited_to')
+            glob_ = req['cb']['limited_to']
+            if own_ is not None and glob_ is not None:
+                go, gg = req['cb']['geoms'][str(own_)], req['cb']['geoms'][str(glob_)]
+                if go['srs'] != gg['srs'] and not (is_rectilinear(go['shape']) and is_rectilinear(gg['shape'])):
+                    go['srs'] = gg['srs'] = None
+        if req['type'] == 'map' and srs == 'EPSG:4326' and req['bbox'][3] > 84:
+            # keep the request inside the area where the projections of the caches are valid
+            dy = req['bbox'][3] - 84
+            req['bbox'] = [req['bbox'][0], req['bbox'][1] - dy, req['bbox'][2], req['bbox'][3] - dy]
         reqs.append(req)
         if req['type'] in ('map', 'tile') and rng.random() < 0.12:
             reqs.extend(fan_pair(rng, req, names))
@@ -1481,6 +1496,18 @@ def tile_cov_index(cb, layer, q_srs, q_bbox):
     if own in covs and glob in covs:
         geom = covs[own].geom.intersection(covs[glob].transform_to(covs[own].srs).geom)
         idx[geom_key_of(covs[own].srs, geom)] = [own, glob]
+        try:
+            # the same intersection built in the SRS of the grid (helper called with srs=grid.srs)
+            from mapproxy.srs import SRS
+            from mapproxy.util.geom import flatten_to_polygons
+            import shapely.geometry
+            gs = SRS(q_srs)
+            g2 = covs[own].transform_to(gs).geom.intersection(covs[glob].transform_to(gs).geom)
+            polys = flatten_to_polygons(g2)
+            g2 = polys[0] if len(polys) == 1 else shapely.geometry.MultiPolygon(polys)
+            idx.setdefault(geom_key_of(gs, g2), [own, glob])
+        except Exception:  # noqa
+            pass
     return idx
 
 
